@@ -6,6 +6,7 @@
 #include "common/ref_regex.hpp"
 #include "common/bugmodel_merge.hpp"
 #include "common/buffers.hpp"
+#include "common/diag_text.hpp"
 #include <sstream>
 
 using eng::Choice; using eng::Stats; using eng::Verdict;
@@ -340,7 +341,7 @@ static RefLex ref_lex(const rx::Dfa& d, const std::string& s, bool ws, bool nl)
     return r;
 }
 
-enum LProp { LC04, LC10, LC12 };
+enum LProp { LC04, LC10, LC12, LC16 };
 
 static Verdict check_lexer(LProp prop, const LCase& c, Stats& st)
 {
@@ -366,7 +367,7 @@ static Verdict check_lexer(LProp prop, const LCase& c, Stats& st)
     if (of) return Verdict::discard("spec-too-big");
     rx::Dfa spec; if (!rx::determinize(nfa, starts, acc, spec)) return Verdict::discard("spec-too-big");
     bool any_nullable = spec.label[0] >= 0;
-    if (any_nullable && prop != LC04) return Verdict::discard("nullable-term");
+    if (any_nullable && prop != LC04 && prop != LC16) return Verdict::discard("nullable-term");
 
     // the budget the library derives: sum of Terms::dfa_size (char 2, string 2*len, pattern = analyze_dfa_size)
     try { for (auto& t : c.terms) budget += lx::real_term_budget(t); }
@@ -408,7 +409,8 @@ static Verdict check_lexer(LProp prop, const LCase& c, Stats& st)
         if (inc2) return Verdict::discard("comparison-too-big");
         int sl = rx::dfa_run(spec, w), il = rx::dfa_run(impl, w);
         det.set("witness_hex", vj::hex(w)); det.set("witness", w); det.set("spec_term", sl); det.set("impl_term", il); det.set("same_as_model_of_pinned_construction", same);
-        if (!(same && eng::args().is_known("F5")))
+        if (prop == LC16 && !same) return Verdict::discard("lexer-automaton-differs-from-reference(C04's subject)");
+        if (prop != LC16 && !(same && eng::args().is_known("F5")))
             return Verdict::fail(prop == LC04 ? "lexer automaton does not implement longest-match / first-listed priority for some input" : "lexer automaton differs from the reference", det);
         affected = true; tokenizer = &model;
     }
@@ -456,6 +458,33 @@ static Verdict check_lexer(LProp prop, const LCase& c, Stats& st)
             if (rl.error) { std::ostringstream ws; ws << "[" << rl.err_line << ":" << rl.err_col << "] PARSE: Unexpected character: " << char(rl.err_byte) << "\n"; want = ws.str(); }
             if (os.str() != want) { auto d = fd(); d.set("expected_stream", want); return Verdict::fail("wrong or missing 'Unexpected character' report", d); }
         }
+        if (prop == LC16 && in.text.size() <= 4000)   // (the per-character lexer trace of a giant lexeme is megabytes of text)
+        {
+            // the same input with verbose on: same outcome, same term functor calls, quiet lines kept, and the recognised terms / shifts written to
+            // the stream are exactly the tokens of the reference tokenisation (the list grammar accepts every term sequence)
+            lx::Log vlog; lx::g_log = &vlog; std::ostringstream vos; bool vhas = false;
+            try { auto res = p.parse(ctpg::parse_options{}.set_skip_whitespace(in.ws).set_skip_newline(in.nl).set_verbose(true), ctpg::buffers::string_view_buffer(sv), vos); vhas = res.has_value(); }
+            catch (const std::exception& e) { lx::g_log = nullptr; auto d = fd(); d.set("exception", e.what()); return Verdict::fail("verbose parse threw", d); }
+            lx::g_log = nullptr;
+            st.sub_evaluations += st.counting ? 1 : 0;
+            auto vfail = [&](const std::string& what) { auto d = fd(); d.set("verbose_stream", vos.str().substr(0, 4000)); return Verdict::fail(what, d); };
+            if (vhas != has) return vfail("result depends on verbosity");
+            bool same_calls = vlog.terms.size() == log.terms.size(); for (size_t i = 0; same_calls && i < log.terms.size(); ++i) if (vlog.terms[i].term != log.terms[i].term || vlog.terms[i].data != log.terms[i].data || vlog.terms[i].size != log.terms[i].size) same_calls = false;
+            if (!same_calls) return vfail("term functor calls depend on verbosity");
+            { auto ql = dt::split_lines(os.str()), vl = dt::split_lines(vos.str()); size_t j = 0; for (auto& l : ql) { while (j < vl.size() && vl[j] != l) ++j; if (j == vl.size()) return vfail("a non-verbose message is missing from (or altered in) the verbose output"); ++j; } }
+            if (tok_ok)
+            {
+                auto tr = dt::parse_trace(vos.str());
+                std::vector<std::string> rec, shifted; bool eof_rec = false, success = false;
+                for (auto& tl : tr) { if (tl.k == dt::TraceLine::RECOGNIZED) { if (tl.s == "<eof>") eof_rec = true; else rec.push_back(tl.s); } else if (tl.k == dt::TraceLine::SHIFT) shifted.push_back(tl.s); else if (tl.k == dt::TraceLine::SUCCESS) success = true; }
+                std::vector<std::string> want; for (auto& t : rl.toks) want.push_back(lx::term_ids[t.term]);
+                if (rec != want) { auto d = fd(); d.set("verbose_stream", vos.str().substr(0, 4000)); vj::Value a = vj::Value::array(); for (auto& x : want) a.push(x); d.set("terms_of_the_input", a); vj::Value b = vj::Value::array(); for (auto& x : rec) b.push(x); d.set("traced_recognised_terms", b); return Verdict::fail("verbose trace is not truthful: recognised terms differ from the terms the lexer delivered", d); }
+                if (shifted.size() != want.size()) return vfail("verbose trace is not truthful: shifts differ from the terms consumed");
+                if (eof_rec == rl.error) return vfail(rl.error ? "verbose trace is not truthful: <eof> recognised in a parse that stopped at an unexpected character" : "verbose trace is not truthful: <eof> never recognised in a successful parse");
+                if (success != has) return vfail("verbose trace is not truthful: Success line does not match the result");
+            }
+            if (rl.toks.size() >= 2) { ++interesting; if (rl.error && st.counting) st.label(any_nullable ? "lexical-error-with-nullable-term" : "lexical-error"); }
+        }
         if (prop == LC10 && tok_ok)
         {
             for (size_t i = 0; i < log.rules.size() && i < rl.toks.size(); ++i)
@@ -492,7 +521,7 @@ static Verdict check_lexer(LProp prop, const LCase& c, Stats& st)
         bool giant = false; for (auto& in : c.inputs) if (in.text.size() > 400) giant = true;
         if (st.want_sample() && !giant) { vj::Value s = lcase_json(c); st.sample(s); }
     }
-    if (affected) { if (st.counting) st.excluded_known["F5"]++; }
+    if (affected && prop != LC16) { if (st.counting) st.excluded_known["F5"]++; }
     return Verdict::pass();
 }
 
@@ -500,7 +529,7 @@ template<LProp PROP>
 struct LP
 {
     using Case = LCase;
-    static const char* id() { return PROP == LC04 ? (eng::args().prop == "C09l" ? "C09l" : "C04") : PROP == LC10 ? "C10l" : "C12l"; }
+    static const char* id() { return PROP == LC04 ? (eng::args().prop == "C09l" ? "C09l" : "C04") : PROP == LC10 ? "C10l" : PROP == LC16 ? "C16l" : "C12l"; }
     static Case gen(Choice& ch) { return gen_lcase(ch); }
     static vj::Value to_json(const Case& c) { return lcase_json(c); }
     static Case from_json(const vj::Value& v) { return lcase_from(v); }
@@ -517,6 +546,7 @@ int main(int argc, char** argv)
         if (a.prop == "C04" || a.prop == "C09l") rc = eng::run_property<LP<LC04>>(a);     // C09l: the same oracle serves C09's 'Unexpected character' clause for real lexers
         else if (a.prop == "C10l") rc = eng::run_property<LP<LC10>>(a);
         else if (a.prop == "C12l") rc = eng::run_property<LP<LC12>>(a);
+        else if (a.prop == "C16l") rc = eng::run_property<LP<LC16>>(a);
         else { fprintf(stderr, "unknown --prop %s\n", a.prop.c_str()); rc = 2; }
     });
     return rc;
